@@ -23,7 +23,7 @@ LEVEL_RULE = (
 EXHAUSTIVE_SUBDOMAINS = ["every NL band 1..59 x hemisphere x newer parity (directed)"]
 ASSUMPTIONS = ["positions whose recovered latitude is within 1e-9 deg of an NL transition are ambiguous, not judged",
                "receiver latitude clamped to [-90,90]; equal timestamps accept either frame"]
-REQUIRED = ["receiver_44.5_to_45_degrees_of_longitude_away", "value_result", "datetime_ts", "aware_datetime_ts", "dst_change_ts", "reference_is_previous_fix", "no_ref_rejected", "rx_other_hemisphere", "rx_lat_zero", "rx_across_antimeridian",
+REQUIRED = ["receiver_44.5_to_45_degrees_of_longitude_away", "value_result", "datetime_ts", "aware_datetime_ts", "dst_change_ts", "datetime_ts_at_the_ends_of_the_range", "reference_is_previous_fix", "no_ref_rejected", "rx_other_hemisphere", "rx_lat_zero", "rx_across_antimeridian",
             "rx_across_greenwich", "newer_even", "newer_odd", "target_south", "target_west"] + \
            ["band%d" % nl for nl in range(1, 60)]
 
@@ -73,6 +73,19 @@ def m_surface(ctx, case):
         # timestamps are documented as int | datetime
         b0 = datetime.datetime(2024, 1, 1)
         T0, T1 = b0 + datetime.timedelta(seconds=te), b0 + datetime.timedelta(seconds=to)
+        if case["addr"] % 4 == 1:
+            # a relative clock: elapsed seconds counted from datetime.min (or down from datetime.max) - legal datetime stamps
+            # at the very ends of the representable range, where timestamp() / astimezone() conversions overflow
+            try:
+                lo_s, hi_s = min(te, to), max(te, to)
+                if case["addr"] % 8 == 1:
+                    b_ = datetime.datetime.min + datetime.timedelta(seconds=max(0.0, -lo_s))
+                else:
+                    b_ = datetime.datetime.max - datetime.timedelta(seconds=max(0.0, hi_s))
+                T0, T1 = b_ + datetime.timedelta(seconds=te), b_ + datetime.timedelta(seconds=to)
+                ctx.hit("datetime_ts_at_the_ends_of_the_range")
+            except OverflowError:
+                pass
         ctx.hit("datetime_ts")
     else:
         T0, T1 = te, to
